@@ -282,6 +282,8 @@ static void c06(const Trace& t, const Analysis& A, Verdict& V) {
 		if (e.cAct != e.mActMask) V.add(6, i, F("control.isActive(id) mask %llx != machine.isActive(id) mask %llx (active=%d)", (unsigned long long) e.cAct, (unsigned long long) e.mActMask, sidOf(e.mAct)));
 		if (f.hasPlans && !(e.planFlags & PF_CTL_EQUAL)) V.add(6, i, "control.plan() shows a different plan than machine.plan()");
 		if (an.outKnown && !f.bare && !(e.req == an.out)) V.add(6, i, F("control.request()=%s but the outstanding request is %s", trStr(e.req).c_str(), trStr(an.out).c_str()));
+		// an empty "transition accepted so far" is really empty: it names no origin and carries nothing over from an earlier step
+		if (e.ctl != CTL_CONST && !e.cur.valid && (e.cur.origin != NOID || e.cur.hasPay)) V.add(6, i, F("currentTransition() is empty but still shows origin %d%s from an earlier step", sidOf(e.cur.origin), e.cur.hasPay ? " and a payload" : ""));
 		if (an.win < 0) continue;
 		const Win& w = A.wins[an.win];
 		if (isGuard(e.method) && (w.processing || w.activation) && !f.bare) {
@@ -310,7 +312,8 @@ static void c07(const Trace& t, const Analysis& A, Verdict& V) {
 	for (uint32_t i = 0; i < t.n; ++i) {
 		const Ev& e = t.ev[i];
 		if (instDeadAt(A, i)) continue;
-		if (e.kind == EV_CB) { chk(e.req, i, "control.request()"); chk(e.pend, i, "pendingTransition()"); chk(e.cur, i, "currentTransition()"); }
+		if (e.kind == EV_CB) { chk(e.req, i, "control.request()"); chk(e.pend, i, "pendingTransition()"); chk(e.cur, i, "currentTransition()");
+			if (e.ctl != CTL_CONST && !e.cur.valid && e.cur.hasPay) V.add(7, i, F("currentTransition() is empty but exposes a payload (seed byte %u) that belongs to a request of an earlier step", e.cur.seed)); }
 		if (hasSnap(e)) {
 			chk(e.prev, i, "previousTransition()");
 			for (uint32_t k = 0; k < e.planLen; ++k) { const TaskV& q = t.pool[e.planOff + k]; if (q.hasPay && !q.exact) V.add(7, i, "plan task shows a corrupted payload"); if (q.hasPay && !q.aligned) V.add(7, i, "plan task hands out a misaligned payload pointer"); }
